@@ -212,7 +212,27 @@ func (sp SinePacer) Pace(elapsedTime time.Duration, elapsedHits uint64) (time.Du
 		}
 		nextHitIn = time.Duration(float64(nextHitIn) / (hitsAtGuess - float64(elapsedHits)))
 	}
-	return nextHitIn, false
+
+	// The iteration above did not converge, which happens when the amplitude
+	// approaches the mean and the rate is near its trough. The rate of a valid
+	// SinePacer is never below Mean-|Amp|, so hits() is strictly increasing:
+	// bisect for the earliest instant at which the next hit is due.
+	minRate := sp.Mean.hitsPerNs() - math.Abs(sp.Amp.hitsPerNs())
+	if minRate <= 0 {
+		return nextHitIn, false
+	}
+	lo, hi := time.Duration(0), math.MaxInt64-elapsedTime
+	if bound := math.Ceil(hitsToWait / minRate); bound < float64(hi) {
+		hi = time.Duration(bound)
+	}
+	for target := float64(elapsedHits + 1); lo < hi; {
+		if mid := lo + (hi-lo)/2; sp.hits(elapsedTime+mid) < target {
+			lo = mid + 1
+		} else {
+			hi = mid
+		}
+	}
+	return lo, false
 }
 
 // Rate returns a SinePacer's instantaneous hit rate (i.e. requests per second)
